@@ -21,6 +21,11 @@ def jobs(tier):
     L = 48 if tier == "quick" else 96
     J = [recv_job(core, "recv_mem_L%d" % L, None, L, True),
          recv_job(core, "recv_mem_asserts_L%d" % L, None, L, True, ndebug=False)]
+    jr = recv_job(core, "recv_report_len_L%d" % L, "REPORT_LEN_STUB", L, True)
+    jr.replace_calls = [("rtr_send_error_pdu", "stub_send_error_pdu")]
+    jr.desc += "; the static rtr_send_error_pdu replaced by a contract stub asserting that the length it is asked to encapsulate is <= the bytes received of the offending PDU, <= RTR_MAX_PDU_LEN and inside the object passed (no VLA of hostile size needed to see an over-long report request)"
+    jr.stubs = list(jr.stubs) + ["rtr_send_error_pdu replaced (goto-instrument --replace-calls) by a length-contract stub in this job only"]
+    J.append(jr)
     for nm, entry in (("recv_all", "harness_recv"), ("send_all", "harness_send")):
         J.append(core.Job(name="transport_" + nm, harness="transport_all.c", entry=entry, defines=["TLEN=%d" % (12 if tier == "quick" else 14)],
                           unwind=26, timeout=900, memory_checks=True, object_bits=9, flags_meta=["unwind-is-violation"],
